@@ -626,6 +626,19 @@ def _run_torch(run, spec):
     ok, r = call_real(run, lambda: (len(mw), tw.marker), what="len / attribute delegation of TorchWrapper")
     if ok and r != (n, "tuple-ds"):
         run.violation("torchwrapper:delegation", f"len/attribute delegation gives {r}")
+        return
+    # the wrapped torch dataset grows (a list-backed buffer that is appended to): len, the last sample and iteration follow it
+    if spec["seed"] % 3 == 0:
+        base.n = n + 2
+        ok, r = call_real(run, lambda: (len(mw), mw[-1], len(list(itertools.islice(iter(mw), n + 5)))), what="TorchWrapper after the wrapped dataset grew")
+        if not ok:
+            return
+        run.count("index_forms_checked", 3)
+        last = r[1] if len(req) > 1 else (r[1],)
+        okv = all((v == n + 1) if q == "index" else (isinstance(v, tuple) and v[:3] == ("f", names.index(q), n + 1)) for q, v in zip(req, last))
+        if r[0] != n + 2 or r[2] != n + 2 or not okv:
+            run.violation("torchwrapper:stale-length", f"TorchWrapper(mode={tmode!r}) under mode {' '.join(req)!r}: after the wrapped dataset grew from {n} to {n + 2} samples "
+                                                       f"len is {r[0]}, iteration yields {r[2]} samples and [-1] is {_s(r[1])}")
 
 
 # ------------------------------------------------------------------------------------------------ real fused wrappers
